@@ -511,6 +511,9 @@ var c01FrontPinned = []frontPinned{
 	  "When": {"type": "string", "format": "date-time"}, "K": {"const": "k"}, "Anything": {}}}`,
 		[]string{`{"rn":"a"}`, `{"rn":"a","on":"","c":0,"aa":"z","tags":["t"],"dict":{"a":1},"when":"2021-05-06T07:08:09+05:30","k":"k","any":{"x":[1]},"mn":null}`,
 			`{"rn":1}`, `{"rn":"a","tags":[]}`, `{"rn":"a","dict":{}}`, `{"rn":"a","c":-1}`, `{"rn":"a","k":"j"}`, `{"rn":"a","aa":2}`, `{"rn":"a","mn":"x"}`}},
+	// witness of C01_jsonschema_parser_sound_counterexample (lean/Cog/Props/C01.lean: `cxDefs`, `cxDoc`)
+	{"pinint64", `{"$schema": "http://json-schema.org/draft-07/schema#", "$ref": "#/definitions/R", "definitions": {"R": {"type": "integer"}}}`,
+		[]string{`9223372036854775808`, `9223372036854775807`, `-9223372036854775808`, `1.0`, `1.5`}},
 	{"pinenumempty", `{"$schema": "http://json-schema.org/draft-07/schema#", "type": "object", "properties": {"e": {"enum": []}}}`, nil},
 	{"pintuple", `{"$schema": "http://json-schema.org/draft-07/schema#", "type": "object", "properties": {"l": {"type": "array", "items": [{"type": "string"}, {"type": "integer"}]}}}`, nil},
 	{"pinbadtype", `{"$schema": "http://json-schema.org/draft-07/schema#", "type": "object", "properties": {"l": {"type": "frob"}}}`, nil},
